@@ -57,7 +57,7 @@ def labels(channels, encs, chunk_opts, props):
     for newlist in (True, False):
         for k in range(len(channels) + 1):
             for subset in itertools.permutations(channels, k):
-                for es in itertools.product(encs, repeat=k):
+                for es in itertools.product(*[(encs[ch] if isinstance(encs, dict) else encs) for ch in subset]):
                     for c in chunk_opts:
                         for p in ((False, True) if (props and k) else (False,)):
                             out.append({'meta': True, 'newlist': newlist,
@@ -302,6 +302,7 @@ def _alphabet(name):
             'A2x': ('ab', ['F1', 'F2', 'FX', 'SAME', 'NODATA'], [1], False),
             'A3s': ('abc', ['F1', 'F2', 'SAME', 'NODATA'], [1], False),
             'A3c': ('abc', ['F1', 'F2', 'SAME', 'NODATA'], [1, 2], False),
+            'A3r': ('abc', {'a': ['F1', 'F2', 'SAME', 'NODATA'], 'b': ['F1', 'SAME', 'NODATA'], 'c': ['F1', 'SAME', 'NODATA']}, [1], False),
         }[name]
         _ALPHA_CACHE[name] = labels(chans, encs, chunks, props)
     return _ALPHA_CACHE[name]
@@ -313,7 +314,7 @@ def run(ctx):
     cov = {'full_tree': [], 'bfs': {}}
     results = []
     # (i) full trees
-    trees = [('A2', 2), ('A2s', 3)] if ctx.tier == 'quick' else [('A2', 2), ('A2x', 3), ('A3s', 2)]
+    trees = [('A2', 2), ('A2s', 3)] if ctx.tier == 'quick' else [('A2', 2), ('A2x', 3), ('A3r', 2)]
     for aname, depth in trees:
         alpha = _alphabet(aname)
         if depth >= 3:
@@ -336,7 +337,7 @@ def run(ctx):
     tree = merge([{'counters': r['counters'], 'outcomes': r['outcomes'], 'violations': r['violations'],
                    'samples': r['samples']} for r in results])
     # (ii) BFS to fixpoint
-    aname = 'A2' if ctx.tier == 'quick' else 'A3s'
+    aname = 'A2' if ctx.tier == 'quick' else 'A3r'
     alpha = _alphabet(aname)
     seen = {}
     frontier = [[]]
